@@ -7,22 +7,34 @@ spec/cors/Cors.tla: the builder calls of App / SubApp / Cors in any order are th
 dispatch (get_handler, OPTIONS branch, general branch, Cors::set_headers on the header list) is Respond, the
 documented intent (computed from the call HISTORY) is Expected.
 
+TWO LEVELS OF JUDGING (false-alarm audit). C01 states only that a response carries "the matched route's CORS
+headers". Level 1 is the code model (Respond / Expected: status 204/200/404, the raw Access-Control-* lines with
+their ", " joins, multiplicity and order, the identity of the handler that ran, the crate-doc reading of a Cors
+value, "handler-set headers win", "nothing on an unmatched request"). A disagreement at level 1 is judged at
+level 2 against the statement alone (Cors!AcceptSets / Acceptable, leniencies L-Status, L-Unmatched, L-Tokens,
+L-Names, L-MethodsAny, L-Echo, L-Own): accepted => ctx.drift("cors", ...) (SPEC-DRIFT, exit code unchanged),
+rejected => ctx.violation(...). What gates: on a matched route the token sets of Access-Control-Allow-Origin /
+-Methods / -Headers are the configured ones of THAT route (configuration derived from the call history).
+
 1. TLC: Dev = {} satisfies Inv_RouteCorsIntent / Inv_Response / Inv_Unmatched / Inv_HandlerWins /
-   Inv_OptionsRouteOnly / Inv_CorsValues for every builder sequence of <= 4 (thorough 5) calls over 2 patterns x
-   2 handler kinds x 2 Cors values x 2 host patterns; for every Cors builder chain of <= 3 (thorough 4) calls x 7
-   handler kinds (header computation); and, history-free (VIEW), for builder sequences of ANY length within
-   structural bounds. 18 plausible bugs (Dev; quick: 8 of them) must each violate (sensitivity; "no violation" =
-   ToolError).
+   Inv_OptionsRouteOnly / Inv_CorsValues / Inv_Judge for every builder sequence of <= 4 (thorough 5) calls over 2
+   patterns x 2 handler kinds x 2 Cors values x 2 host patterns; for every Cors builder chain of <= 3 (thorough 4)
+   calls x 7 handler kinds (header computation); and, history-free (VIEW), for builder sequences of ANY length
+   within structural bounds. 18 plausible bugs (Dev; quick: 8 of them) must each violate the code model; 11 of them
+   (quick: 4) must also violate Inv_Judge (the statement rejects them) and two leniency witnesses (override /
+   duplicate handler headers, `*` for wildcard methods, CORS on 404, handler run on OPTIONS) must satisfy it.
 2. spec -> code: TLC prints every builder history of <= 3 calls (thorough: <= 4 over a narrower alphabet) and, by
-   -simulate, random histories of 9 calls, each with Expected for 36 requests (GET/OPTIONS/POST x 4 Host values
-   x 3 paths); harness/src/bin/cors.rs (threaded) and harness-tokio/src/bin/cors.rs build the REAL App through
-   the public builder in exactly that order, run it on loopback and compare status, every Access-Control-*
-   header (values, multiplicity, order per name) and the identity of the handler that ran.
+   -simulate, random histories of 9 calls, each with Expected (level 1) and AcceptSets (level 2) for 36 requests
+   (GET/OPTIONS/POST x 4 Host values x 3 paths, with / without an Origin header); harness/src/bin/cors.rs
+   (threaded) and harness-tokio/src/bin/cors.rs build the REAL App through the public builder in exactly that
+   order, run it on loopback and compare.
 3. code -> spec: random builder sequences of 2..16 calls with random Cors chains on both runtimes, the log
-   (calls + observed responses) validated by TLC against Trace_Cors (Respond AND Expected).
-4. self-test (after a clean run only): one flipped expected value must be reported by the harness, one flipped
-   logged header must be rejected by Trace_Cors."""
+   (calls + observed responses) validated by TLC against Trace_Cors (both levels).
+4. self-test (after a clean run only): a flipped status must be reported as drift and a foreign origin as a
+   mismatch by the harness; a doubled header line must be drift and a foreign header name rejected by Trace_Cors.
+"""
 import copy
+import uuid
 import json
 import os
 import random
@@ -41,6 +53,9 @@ DEVS = ["CorsOnlyFuture", "CorsOnlyExisting", "NewRouteIgnoresSubCors", "ConfigF
         "OptionsNoCors", "OptionsRunsHandler", "OverrideHandler", "DuplicateHandler", "MethodsWildcardStar",
         "OriginsLastOnly", "HeadersGuardChecksMethods", "OriginAfterWildcardResets"]
 # quick runs one representative per class (builder override, pattern selection, host scope, OPTIONS branch, handler-set headers, values)
+# bugs that the statement itself (second level, Inv_Judge) must reject
+JUDGE_DEVS = ["CorsOnlyFuture", "OptionsNoCors", "AppCorsAllHosts", "HeadersGuardChecksMethods", "ConfigByMatch", "OriginsLastOnly",
+              "CorsOnlyExisting", "NewRouteIgnoresSubCors", "ConfigSetsSubCors", "AppConfigAllHosts", "DefSubKeepsOldCors"]
 QUICK_DEVS = ["CorsOnlyFuture", "CorsOnlyExisting", "ConfigByMatch", "AppCorsAllHosts", "OptionsNoCors", "OverrideHandler",
               "DuplicateHandler", "MethodsWildcardStar"]
 
@@ -83,6 +98,13 @@ def run_part(ctx, tier):
     for d in devs:
         job("dev:" + d, "CORS sensitivity Dev={%s}" % d, "MC_Cors.tla", "MC_Cors_dev_%s.cfg" % d, workers=1, heap="1g", timeout=600)
 
+    # second level (the statement alone, Cors!Inv_Judge): bugs it must still reject, leniencies it must admit
+    jdevs = JUDGE_DEVS if thorough else JUDGE_DEVS[:4]
+    for d in jdevs:
+        job("jdev:" + d, "CORS judge sensitivity Dev={%s}" % d, "MC_Cors.tla", "MC_Cors_judge_dev_%s.cfg" % d, workers=1, heap="1g", timeout=600)
+    for w in ("lenient1", "lenient2"):
+        job("jlen:" + w, "CORS judge leniency witness " + w, "MC_Cors.tla", "MC_Cors_judge_%s.cfg" % w, workers=1, heap="1g", timeout=600)
+
     res = {}
     with ThreadPoolExecutor(max_workers=6) as ex:
         futs = [(key, note, ex.submit(fn)) for key, note, fn in jobs]
@@ -100,6 +122,16 @@ def run_part(ctx, tier):
         ctx.add_tlc(note, r)
         if r.violation != "invariant":
             raise vlib.ToolError("CORS model lost sensitivity: Dev={%s} violates nothing" % d)
+    for d in jdevs:
+        note, r = res["jdev:" + d]
+        ctx.add_tlc(note, r)
+        if r.violation != "invariant":
+            raise vlib.ToolError("CORS judge lost sensitivity: Dev={%s} is accepted by Inv_Judge" % d)
+    for w in ("lenient1", "lenient2"):
+        note, r = res["jlen:" + w]
+        ctx.add_tlc(note, r)
+        if r.violation is not None:
+            raise vlib.ToolError("CORS judge is stricter than the statement: witness %s violates Inv_Judge" % w)
     model_ok = all(res[k][1].violation is None for k in ("mc", "mccov", "values", "deep", "deep2") if k in res)
 
     # ---- 2. vectors from TLC replayed into real apps on both runtimes ----
@@ -147,9 +179,9 @@ def run_part(ctx, tier):
             if tot is None:
                 tot = s
             else:
-                for k in ("jobs", "skipped_defsub", "apps", "requests", "mismatches", "nontrivial", "errors", "not_stopped"):
+                for k in ("jobs", "skipped_defsub", "apps", "requests", "mismatches", "nontrivial", "errors", "not_stopped", "drifts"):
                     tot[k] += s[k]
-                for k in ("first_errors", "first", "samples"):
+                for k in ("first_errors", "first", "samples", "first_drift"):
                     tot[k] = (tot[k] + s[k])[:10]
         return tot
 
@@ -179,19 +211,28 @@ def run_part(ctx, tier):
         ctx.cov["distinct_nontrivial"] += s["nontrivial"]
         ctx.cov["traces_validated_against_impl"] += s["apps"]
         ctx.add_part("cors vectors " + rt, apps=s["apps"], requests=s["requests"], with_cors_headers=s["nontrivial"],
-                     skipped_no_with_default_subapp=s["skipped_defsub"], mismatches=s["mismatches"])
+                     skipped_no_with_default_subapp=s["skipped_defsub"], mismatches=s["mismatches"],
+                     differs_from_code_model_but_statement_holds=s["drifts"])
         for x in s["samples"][:2]:
             ctx.sample({"cors": rt, "calls": x["calls"], "req": x["req"], "got": x["got"]}, limit=12)
+        if s["drifts"]:
+            clean = False
+            f0 = s["first_drift"][0]
+            ctx.drift("cors", "%d response(s) of real %s apps differ from the CORS code model (status / raw header lines / handler) but still carry the matched "
+                      "route's CORS headers; first: calls=%s req=%s code model=%s got=%s"
+                      % (s["drifts"], rt, json.dumps(f0["calls"]), json.dumps(f0["req"]), json.dumps(f0["code_model_expected"]), json.dumps(f0["got"])),
+                      {"kind": "cors-vectors-drift", "runtime": rt, "first": s["first_drift"]})
         if s["mismatches"]:
             clean = False
             f0 = s["first"][0]
-            ctx.violation("CORS: %d response(s) of real %s apps differ from ExpectedCorsHeaders; first: calls=%s req=%s expected=%s got=%s"
-                          % (s["mismatches"], rt, json.dumps(f0["calls"]), json.dumps(f0["req"]), json.dumps(f0["expected"]), json.dumps(f0["got"])),
+            ctx.violation("CORS: %d response(s) of real %s apps do not carry the matched route's CORS headers; first: calls=%s req=%s statement accepts=%s got=%s"
+                          % (s["mismatches"], rt, json.dumps(f0["calls"]), json.dumps(f0["req"]), json.dumps(f0["statement_accepts"]), json.dumps(f0["got"])),
                           {"kind": "cors-vectors", "runtime": rt, "first": s["first"]})
 
     # ---- 3. random builder sequences on the real code, validated by TLC ----
     def validate(label, recs):
-        tr = os.path.join(wd, "trace-%s.ndjson" % label)
+        # unique per invocation: several C01 runs (seed rechecks, other tiers) may be under way at the same time
+        tr = os.path.join(wd, "trace-%s-%d-%s.ndjson" % (label, os.getpid(), uuid.uuid4().hex[:8]))
         vlib.write_lines(tr, recs)
         try:
             return _tlc("Trace_Cors.tla", "Trace_Cors.cfg", workers=1, env={"TRACE": tr}, deque=True, heap="6g")
@@ -209,17 +250,30 @@ def run_part(ctx, tier):
         ctx.cov["traces_validated_against_impl"] += napp
         stats = next((p["stats"] for p in t.prints if "stats" in p), None)
         rej = next((p["rejected"] for p in t.prints if "rejected" in p), None)
+        unf = next((p["unfoldable"] for p in t.prints if "unfoldable" in p), [])
+        dri = next((p["drifted"] for p in t.prints if "drifted" in p), [])
+
+        def app_of(line):
+            return next((rnd[rt][i] for i in range(min(line, len(rnd[rt])) - 1, -1, -1) if rnd[rt][i]["t"] == "app"), None)
+
+        if unf:
+            raise vlib.ToolError("Trace_Cors (%s): the harness logged builder calls the builder machine cannot fold: %s" % (rt, json.dumps(unf[0])[:800]))
+        if dri:
+            clean = False
+            a0 = app_of(dri[0]["line"])
+            ctx.drift("cors", "%d+ record(s) logged from real %s apps differ from the CORS code model but are accepted by the statement (Cors!Acceptable); first: %s (calls=%s)"
+                      % (len(dri), rt, json.dumps(dri[0]["rec"]), json.dumps(a0["calls"] if a0 else None)),
+                      {"kind": "cors-trace-drift", "runtime": rt, "drifted": dri, "app": a0})
         if t.violation is None and stats:
             ctx.cov["distinct_nontrivial"] += stats[1]
             ctx.add_part("cors random " + rt, apps=napp, requests=stats[0], with_cors_headers=stats[1], options_hits=stats[2],
-                         handler_set_headers=stats[3], unmatched=stats[4], rejected=0)
-        elif rej is not None:
+                         handler_set_headers=stats[3], unmatched=stats[4], rejected=0, drifted=len(dri))
+        elif rej:
             clean = False
-            ctx.add_part("cors random " + rt, apps=napp, requests=nreq, rejected=len(rej))
+            ctx.add_part("cors random " + rt, apps=napp, requests=nreq, rejected=len(rej), drifted=len(dri))
             # give the replay file the builder calls of the app the first rejected record belongs to
-            line = rej[0]["line"]
-            appline = next((rnd[rt][i] for i in range(min(line, len(rnd[rt])) - 1, -1, -1) if rnd[rt][i]["t"] == "app"), None)
-            ctx.violation("CORS: %d record(s) logged from real %s apps are rejected by Trace_Cors; first: %s (calls=%s)"
+            appline = app_of(rej[0]["line"])
+            ctx.violation("CORS: %d record(s) logged from real %s apps do not carry the matched route's CORS headers (rejected by Trace_Cors at both levels); first: %s (calls=%s)"
                           % (len(rej), rt, json.dumps(rej[0]["rec"]), json.dumps(appline["calls"] if appline else None)),
                           {"kind": "cors-trace", "runtime": rt, "rejected": rej, "app": appline})
         else:
@@ -229,25 +283,39 @@ def run_part(ctx, tier):
     if clean:
         rng = random.Random(ctx.seed)
         cand = [v for v in vectors if any(e["ac"]["o"] for e in v["exp"])]
-        bad = copy.deepcopy(rng.choice(cand))
-        i = next(k for k, e in enumerate(bad["exp"]) if e["ac"]["o"])
-        bad["exp"][i]["ac"]["o"] = [bad["exp"][i]["ac"]["o"][0] + ", http://evil.test"]
-        p = run_bin(exes["threaded"], ["replay", "--workers", "1"], stdin_data=json.dumps({"reqs": reqs}) + "\n" + json.dumps(bad) + "\n", timeout=300)
+        # (a) the code model's expectation flipped (preflight status 204 -> 200): must be a drift, not a mismatch
+        soft = copy.deepcopy(rng.choice(cand))
+        i = next(k for k, e in enumerate(soft["exp"]) if e["ac"]["o"])
+        soft["exp"][i]["status"] = 299
+        # (b) expectation AND the statement's accepted sets flipped: must be a mismatch
+        bad = copy.deepcopy(soft)
+        bad["acc"][i]["o"] = [["http://evil.test"]]
+        p = run_bin(exes["threaded"], ["replay", "--workers", "1"],
+                    stdin_data=json.dumps({"reqs": reqs}) + "\n" + json.dumps(soft) + "\n" + json.dumps(bad) + "\n", timeout=300)
         s = [x for x in parse_jsonl(p.stdout) if x.get("summary")]
-        if not s or s[0]["mismatches"] != 1:
-            raise vlib.ToolError("cors self-test: a flipped expected Access-Control-Allow-Origin was not reported by the harness")
+        if not s or s[0]["mismatches"] != 1 or s[0]["drifts"] != 1:
+            raise vlib.ToolError("cors self-test: flipped vectors gave %s (want 1 drift for a flipped status, 1 mismatch for a foreign origin)"
+                                 % (json.dumps({k: s[0][k] for k in ("mismatches", "drifts")}) if s else "no summary"))
         recs = rnd["tokio"]
         k = next(j for j, r in enumerate(recs) if r["t"] == "req" and r["got"]["ac"]["h"])
         a = max(j for j in range(k) if recs[j]["t"] == "app")
-        mini = [copy.deepcopy(recs[a]), copy.deepcopy(recs[k])]
-        mini[1]["got"]["ac"]["h"] = mini[1]["got"]["ac"]["h"] + mini[1]["got"]["ac"]["h"]     # duplicated header
-        t = validate("selftest", mini)
-        if not any("rejected" in p for p in t.prints):
-            raise vlib.ToolError("cors self-test: a duplicated Access-Control-Allow-Headers line was accepted by Trace_Cors")
-        ctx.add_part("cors self-test", corrupted_vector_detected=True, corrupted_trace_rejected=True)
+        dup = copy.deepcopy(recs[k])       # a second, identical header line: same tokens -> drift only
+        dup["got"]["ac"]["h"] = dup["got"]["ac"]["h"] + dup["got"]["ac"]["h"]
+        evil = copy.deepcopy(recs[k])      # a header name that is not configured -> rejected
+        evil["got"]["ac"]["h"] = [evil["got"]["ac"]["h"][0] + ", x-evil"]
+        evil["got"]["tok"]["h"] = sorted(evil["got"]["tok"]["h"] + ["x-evil"])
+        t = validate("selftest", [copy.deepcopy(recs[a]), dup, evil])
+        rej = next((p["rejected"] for p in t.prints if "rejected" in p), [])
+        dri = next((p["drifted"] for p in t.prints if "drifted" in p), [])
+        if [x["line"] for x in rej] != [3] or [x["line"] for x in dri] != [2]:
+            raise vlib.ToolError("cors self-test: Trace_Cors judged the corrupted log as rejected=%s drifted=%s (want [3] and [2])"
+                                 % ([x["line"] for x in rej], [x["line"] for x in dri]))
+        ctx.add_part("cors self-test", corrupted_vector_detected=True, corrupted_trace_rejected=True, lenient_paths_report_drift=True)
 
     ctx.assumptions += ["CORS part: route / host pattern matching is tabulated in Cors.tla (RouteMatchTable, HostMatchTable); its semantics are C04/C05's",
-                        "CORS part: the intent of a Cors value follows the crate docs (wildcard methods are 'implied' = not sent; several origins are sent as one comma-separated header)"]
+                        "CORS part, two levels: the code model (status, raw Access-Control-* lines, handler identity; intent of a Cors value per the crate docs) only "
+                        "reports SPEC-DRIFT; a VIOLATION needs the statement itself (Cors!Acceptable: on a matched route the token sets of Allow-Origin/-Methods/-Headers "
+                        "are the configured ones, leniencies L-Status/L-Unmatched/L-Tokens/L-Names/L-MethodsAny/L-Echo/L-Own) to reject the observation"]
     try:
         os.rmdir(wd)
     except OSError:
